@@ -817,6 +817,10 @@ Plan gen_sweep(u64 seed, u64 idx, const RunCtx & ctx)
   if (bkg_visit >= 0 && bkg_visit % 3 == 0) { mode = 5; dwell_idx = (bkg_visit / 3) % 8; dwell_tail = (bkg_visit / 24) % 2; }
   else if (r.chance(0.08)) { mode = 5; dwell_idx = (i64)r.below(8); dwell_tail = (i64)r.below(2); }
   if (mode == 5) p.hdr["sweep"] = "dwell draw " + std::to_string(dwell_idx) + (dwell_tail ? " high" : " low");
+  // 6: one deviate sequence replayed with each of its first 40 draws steered in turn to one tail: every decision of THAT
+  // event (branch, decay time of a daughter, rejection) is pushed to its extreme while the path up to it stays the same
+  i64 replay_stream = -1, replay_tail = 0;
+  if (mode != 5 && r.chance(c.nuc.find('+') != std::string::npos ? 0.3 : 0.1)) { mode = 6; replay_stream = (i64)r.below(1ULL << 40); replay_tail = (i64)r.below(2); nshots = 40; p.hdr["sweep"] = std::string("one sequence, each draw steered ") + (replay_tail ? "high" : "low"); }
   i64 sq_n = r.pick(std::vector<i64>{100, 400, 1000}), sq_iv = (i64)r.below(8);
   for (int k = 0; k < nshots; k++) {
     Op s = op_shoot(0, (i64)r.below(1ULL << 40), (int)r.below(2));
@@ -826,6 +830,7 @@ Plan gen_sweep(u64 seed, u64 idx, const RunCtx & ctx)
     } else if (mode == 2) { s.a[5] = k; s.a[6] = (i64)r.below(2); }
     else if (mode == 4) { s.a[11] = sq_n; s.a[12] = r.chance(0.7) ? sq_iv : (i64)r.below(8); }
     else if (mode == 5) { s.a[5] = dwell_idx; s.a[6] = dwell_tail; }
+    else if (mode == 6) { s.a[1] = replay_stream; s.a[2] = 0; s.a[5] = k; s.a[6] = replay_tail; }
     p.ops.push_back(s);
     if (r.chance(0.1)) { Op o; o.k = "fresh"; o.a = {(i64)r.below(2)}; p.ops.push_back(o); }
   }
